@@ -500,11 +500,19 @@ func RunTiming(x *explore.Exec, k *Kernel, g Geometry, o TimingOpts) (res *Resul
 		}
 	}
 	warmDone := warmLeft == 0
+	// register / LDS slots of the resident work-groups: a slot is free again when ITS work-group has completed
+	// (work-groups need not complete in the order they were mapped)
+	slotBusy := make([]bool, o.Resident)
+	slotOf := map[int]int{}
 	mapNext := func() {
 		for warmDone && next < len(wgs) && running < o.Resident {
 			wg := wgs[next]
 			rb := protocol.MapWGReqBuilder{}.WithSrc(ace).WithDst(toACE.AsRemote()).WithPID(1).WithWG(wg)
-			slot := next % o.Resident
+			slot := 0
+			for slotBusy[slot] {
+				slot++
+			}
+			slotBusy[slot], slotOf[next] = true, slot
 			for j, wf := range wg.Wavefronts {
 				n := slot*len(wg.Wavefronts) + j
 				rb = rb.AddWf(protocol.WfDispatchLocation{Wavefront: wf, SIMDID: n % 4, SGPROffset: n * 64 * 4, VGPROffset: (n / 4) * 32 * 4, LDSOffset: slot * ldsBytes(g)})
@@ -540,6 +548,7 @@ func RunTiming(x *explore.Exec, k *Kernel, g Geometry, o TimingOpts) (res *Resul
 			}
 			doneWG[i] = true
 			running--
+			slotBusy[slotOf[i]] = false
 		}
 	}
 	world.OnSend(toACE, func(m sim.Msg) {
